@@ -1,9 +1,182 @@
 import Driver.Util
-open Lean
+import NixModel.Pure.Validator
+open Lean Nix.Validator Nix.Validator.Gen
 
+/-!
+Driver for C14.  One line = `["validate", <file description>]`; the answer is
+`{"ok": [[kind, [path…], [msg…]], …]}` (the entries of `results["errors"]` in insertion order) or
+`{"err": <class>}` when an API read raises.  A message is `[id]`, `[id, idx]`, `[id, idx, value]`,
+`["feature", i, id]` or `["property", i, id]`.
+-/
 namespace Driver.C14
 
-/-- stub: replaced when the model of C14 is built -/
-def main : IO Unit := pureLoop fun _ => bad "C14: model driver not built yet"
+abbrev P := Except String
+
+def field (j : Json) (k : String) : P Json :=
+  match j.getObjVal? k with
+  | .ok v => .ok v
+  | .error _ => .error s!"missing field {k}"
+
+def optStr (j : Json) : P (Option (List Char)) :=
+  match j with
+  | .null => .ok none
+  | .str s => .ok (some s.toList)
+  | _ => .error "expected string or null"
+
+def str (j : Json) : P (List Char) :=
+  match j with
+  | .str s => .ok s.toList
+  | _ => .error "expected string"
+
+def int (j : Json) : P Int :=
+  match j.getInt? with
+  | .ok i => .ok i
+  | .error _ => .error "expected int"
+
+def nat (j : Json) : P Nat := do
+  let i ← int j
+  if i < 0 then .error "expected nat" else .ok i.toNat
+
+def optInt (j : Json) : P (Option Int) :=
+  match j with
+  | .null => .ok none
+  | _ => (int j).map some
+
+def optNat (j : Json) : P (Option Nat) :=
+  match j with
+  | .null => .ok none
+  | _ => (nat j).map some
+
+def bool (j : Json) : P Bool :=
+  match j with
+  | .bool b => .ok b
+  | _ => .error "expected bool"
+
+def arr (j : Json) : P (List Json) :=
+  match j with
+  | .arr a => .ok a.toList
+  | _ => .error "expected array"
+
+def rat (j : Json) : P Rat :=
+  match j with
+  | .str s =>
+    match s.splitOn "/" with
+    | [n, d] =>
+      match n.toInt?, d.toNat? with
+      | some n, some d => if d == 0 then .error "zero denominator" else .ok (mkRat n d)
+      | _, _ => .error "bad rational"
+    | _ => .error "bad rational"
+  | _ => .error "expected rational string"
+
+def optRat (j : Json) : P (Option Rat) :=
+  match j with
+  | .null => .ok none
+  | _ => (rat j).map some
+
+def ent (j : Json) : P Ent := do
+  return { type_ := ← optStr (← field j "type"), id := ← optStr (← field j "id"),
+           idUuid := ← bool (← field j "uuid"), name := ← optStr (← field j "name"),
+           createdAt := ← optInt (← field j "created_at") }
+
+def dimKind (j : Json) : P DimKind :=
+  match j with
+  | .str "range" => .ok .range
+  | .str "sample" => .ok .sample
+  | .str "set" => .ok .set
+  | _ => .error "bad dimension kind"
+
+def dim (j : Json) : P Dim := do
+  return { kind := ← dimKind (← field j "kind"), index := ← int (← field j "index"),
+           ticks := ← (← arr (← field j "ticks")).mapM rat, nLabels := ← nat (← field j "nlabels"),
+           interval := ← optRat (← field j "interval"), unit := ← optStr (← field j "unit") }
+
+def dataArray (j : Json) : P DataArray := do
+  return { ent := ← ent (← field j "ent"), dataType := ← optStr (← field j "dtype"),
+           shape := ← (← arr (← field j "shape")).mapM nat, dims := ← (← arr (← field j "dims")).mapM dim }
+
+def feature (n : Nat) (j : Json) : P Feature := do
+  let d ← optNat (← field j "data")
+  if let some k := d then
+    if k ≥ n then throw "feature data index out of range"
+  return { id := ← optStr (← field j "id"), idUuid := ← bool (← field j "uuid"),
+           createdAt := ← optInt (← field j "created_at"), data := d,
+           linkType := ← optStr (← field j "link_type") }
+
+def refList (n : Nat) (j : Json) : P (List Nat) := do
+  let l ← (← arr j).mapM nat
+  if l.any (· ≥ n) then throw "reference index out of range"
+  return l
+
+def tag (n : Nat) (j : Json) : P Tag := do
+  return { ent := ← ent (← field j "ent"), posLen := ← nat (← field j "poslen"),
+           extLen := ← nat (← field j "extlen"), units := ← (← arr (← field j "units")).mapM str,
+           refs := ← refList n (← field j "refs"),
+           features := ← (← arr (← field j "features")).mapM (feature n) }
+
+def optIdx (n : Nat) (j : Json) : P (Option Nat) := do
+  let o ← optNat j
+  if let some k := o then
+    if k ≥ n then throw "array index out of range"
+  return o
+
+def mtag (n : Nat) (j : Json) : P MultiTag := do
+  return { ent := ← ent (← field j "ent"), positions := ← optIdx n (← field j "positions"),
+           extents := ← optIdx n (← field j "extents"), units := ← (← arr (← field j "units")).mapM str,
+           refs := ← refList n (← field j "refs"),
+           features := ← (← arr (← field j "features")).mapM (feature n) }
+
+partial def source (j : Json) : P Source := do
+  return .mk (← ent (← field j "ent")) (← (← arr (← field j "children")).mapM source)
+
+def property (j : Json) : P Property := do
+  return { id := ← optStr (← field j "id"), idUuid := ← bool (← field j "uuid"),
+           name := ← optStr (← field j "name") }
+
+partial def section_ (j : Json) : P Section := do
+  return .mk (← ent (← field j "ent")) (← (← arr (← field j "props")).mapM property)
+    (← (← arr (← field j "children")).mapM section_)
+
+def block (j : Json) : P Block := do
+  let arrays ← (← arr (← field j "arrays")).mapM dataArray
+  let n := arrays.length
+  return { ent := ← ent (← field j "ent"), groups := ← (← arr (← field j "groups")).mapM ent,
+           arrays := arrays, tags := ← (← arr (← field j "tags")).mapM (tag n),
+           mtags := ← (← arr (← field j "mtags")).mapM (mtag n),
+           sources := ← (← arr (← field j "sources")).mapM source }
+
+def file (j : Json) : P File := do
+  return { createdAt := ← int (← field j "created_at"), blocks := ← (← arr (← field j "blocks")).mapM block,
+           sections := ← (← arr (← field j "sections")).mapM section_ }
+
+def kindStr : Kind → String
+  | .file => "file" | .block => "block" | .group => "group" | .array => "array" | .tag => "tag"
+  | .mtag => "mtag" | .source => "source" | .section => "section"
+
+def msgJson : Msg → Json
+  | .plain m => Json.arr #[Json.str m.name]
+  | .dim m i => Json.arr #[Json.str m.name, Json.num (i : Int)]
+  | .dim2 m i v => Json.arr #[Json.str m.name, Json.num (i : Int), Json.num v]
+  | .feature i m => Json.arr #[Json.str "feature", Json.num (i : Int), Json.str m.name]
+  | .property i m => Json.arr #[Json.str "property", Json.num (i : Int), Json.str m.name]
+
+def entryJson (km : Key × List Msg) : Json :=
+  Json.arr #[Json.str (kindStr km.1.kind), Json.arr (km.1.path.map fun (n : Nat) => Json.num (Int.ofNat n)).toArray,
+             Json.arr (km.2.map msgJson).toArray]
+
+def handle (j : Json) : Json :=
+  match jArr j |>.toList with
+  | [Json.str "validate", d] =>
+    match file d with
+    | .error e => bad s!"C14: {e}"
+    | .ok f =>
+      match validate f with
+      | .ok rs => ok (Json.arr (rs.map entryJson).toArray)
+      | .error e => err e
+  | [Json.str "catalogue"] =>
+    ok (Json.arr (MsgId.all.map fun m =>
+      Json.arr #[Json.str m.name, Json.str m.template, Json.num (m.arity : Int)]).toArray)
+  | _ => bad "C14: unknown op"
+
+def main : IO Unit := pureLoop handle
 
 end Driver.C14
